@@ -95,3 +95,20 @@ func VH_C11_YearObject() {
 	vAssert("yearobj:indices", ly.GetGanIndex() == l.yearGanIndex && ly.GetZhiIndex() == l.yearZhiIndex && ly.GetYear() == l.year)
 	vReach("C11c")
 }
+
+// C11d (real objects): the hour object obtained from a converted date agrees with the date's own hour accessors,
+// including the two duplicated implementations of the hour nine star (which depend on the solar-term table).
+func VH_C11_TimeObject() {
+	Y, m, d, h, mi, s := vhMoment()
+	l := NewSolar(Y, m, d, h, mi, s).GetLunar()
+	var t *LunarTime
+	vAssert("timeobj:no-panic", !vPanics(func() { t = l.GetTime() }))
+	vAssert("timeobj:indices", t.GetGanIndex() == l.GetTimeGanIndex() && t.GetZhiIndex() == l.GetTimeZhiIndex())
+	vEach(func() {
+		vAssert("timeobj:nine-star", t.GetNineStar().GetIndex() == l.GetTimeNineStar().GetIndex())
+	})
+	vEach(func() {
+		vAssert("timeobj:tian-shen", t.GetTianShen() == l.GetTimeTianShen())
+	})
+	vReach("C11d")
+}
